@@ -124,6 +124,16 @@ func DrawXferOpt(t *Tape, tier string) XferOpt {
 	return o
 }
 
+// growTinyMTU adds extra bytes to MTUs of the "tiny MSS" class after a scenario
+// has added overhead the class was not drawn for.
+func (o *XferOpt) growTinyMTU(extra int) {
+	for _, c := range []*SessCfg{&o.CfgA, &o.CfgB} {
+		if c.MTU != 0 && c.MTU < 200 {
+			c.MTU += extra
+		}
+	}
+}
+
 func (o XferOpt) String() string {
 	return fmt.Sprintf("listen=%v cipher=%s fec=%d/%d|%v:%d/%d udp=%v batch=%v workers=%d A{%s} B{%s} bytes=%d/%d link{base=%dus jit=%dus loss=%d dup=%d reorder=%d/%dus ge=%d/%d/%d outages=%v} heal=%v",
 		o.Listen, o.World.Cipher, o.World.FecD, o.World.FecP, o.World.Mismatch, o.World.FecD2, o.World.FecP2, o.World.UDP, o.World.Batch, o.World.SchedWorkers, o.CfgA, o.CfgB, o.BytesAB, o.BytesBA,
@@ -731,6 +741,7 @@ func scenXfer(r *Run) {
 		if o.World.FecD == 0 {
 			c := Pick(t, cs, fecChoices[1:])
 			o.World.FecD, o.World.FecP = c[0], c[1]
+			o.growTinyMTU(8)
 		}
 		if o.Link.LossPM < 30 {
 			o.Link.LossPM = 30 + t.Choose(cs, 250)
